@@ -156,7 +156,8 @@ func (p *memoryState[T]) SMembers(key string) ([]string, error) {
 		return []string{}, err
 	}
 
-	return set.([]string), nil
+	// a copy: SRem shifts the stored slice in place, callers iterate over the result while removing
+	return append([]string(nil), set.([]string)...), nil
 }
 
 func (p *memoryState[T]) SRem(key string, value string) error {
